@@ -20,7 +20,19 @@
 //                        `-h` on its command line prints the usage (Handler::usage(), which starts with
 //                        Groups::instance().evaluatedByArgGroups() -- the process-wide Singleton<Groups>);
 //                        the usage text is part of the thread's result (`/usage=<length>:<hash>`)
+//   bracket t=<k> at=<n>  the thread calls Handler::addBracketHandler() after its first n arguments are defined (n >= number
+//                        of arguments: after all of them); without this line odd threads call it first, even threads never
+//   group t=<k> handlers=<m> loops=<l> [brackets=<j>] [remove=each|all]
+//                        thread k (at most one per case) is a *group thread*: `l` times it obtains m handlers from
+//                        Groups::instance().getArgHandler( "g<k>_<j>", 0), defines its arguments on them (argument i on
+//                        handler i mod m; handler <j> gets bracket handlers), evaluates its command line through
+//                        Groups::evalArguments and removes the handlers (removeArgHandler each / removeAllArgHandler).
+//                        It is the only user of the process-wide Groups object; the other threads' handlers are
+//                        stand-alone and must not notice it.
 //   run n=<threads> reps=<r> seed=<s> [forced=1]
+//       with a group thread, forced=1: the stand-alone threads start their job when the group thread has registered its
+//       handlers and defined their arguments (first loop), and the group thread evaluates / removes them only when all
+//       stand-alone threads are done (harness-level ordering of whole API calls; time-outs instead of dead locks)
 //       with `help` threads the group singleton is reset before every round (first use races again);
 //       forced=1: a schedule forced through the CELMA_VERIF sync points of Singleton<T>::instance(): every
 //       thread that passed the unlocked first check waits at `singleton.lock` until all help threads are
@@ -74,6 +86,15 @@ struct Force {
    std::atomic<int> expected{0}, atLock{0}, leftLocked{0}, constructs{0}, victims{0};
 };
 static Force g_force;
+// forced schedule "stand-alone jobs between the group thread's registration and removal"
+struct GroupForce {
+   std::atomic<bool> on{false};
+   std::atomic<int> registered{0}, standaloneDone{0}, nStandalone{0};
+};
+static GroupForce g_gforce;
+// the streams of the process-wide Groups object (only the group thread can make it write)
+static std::ostringstream* g_groupOut = new std::ostringstream;
+static std::ostringstream* g_groupErr = new std::ostringstream;
 static thread_local bool t_slow = false;      // this call of instance() went into the locked part
 static thread_local int t_myConstruct = 0;    // serial number of the construction this thread performed (0: none)
 
@@ -128,6 +149,10 @@ struct ThreadSpec {
    std::vector<std::pair<std::string, std::string>> hcs;
    std::vector<std::string> argv;
    bool help = false;
+   int bracketAt = -1;             // -1: default (odd threads first, even threads never)
+   bool group = false;             // group thread
+   int gHandlers = 1, gLoops = 1, gBrackets = -1;
+   bool gRemoveAll = false;
 };
 
 // destination variables of one argument, owned by the thread that runs the job
@@ -176,65 +201,103 @@ static pa::detail::ICheck* mkCheck(const std::string& spec, bool isInt) {
    throw std::string("bad check " + spec);
 }
 
+/// defines one argument on a handler; "" or a `bad-..` word
+static std::string addOneArg(pa::Handler& ah, const ArgSpec& a, Dest& d) {
+   pa::detail::TypedArgBase* h = nullptr;
+   bool isInt = false;
+   if (a.kind == "int") { h = ah.addArgument(a.key, DEST_VAR(d.i), "int value"); isInt = true; }
+   else if (a.kind == "str") h = ah.addArgument(a.key, DEST_VAR(d.s), "string value");
+   else if (a.kind == "flag") h = ah.addArgument(a.key, DEST_VAR(d.b), "flag");
+   else if (a.kind == "vec_int") { h = ah.addArgument(a.key, DEST_VAR(d.vi), "int values"); isInt = true; }
+   else if (a.kind == "vec_str") h = ah.addArgument(a.key, DEST_VAR(d.vs), "string values");
+   else if (a.kind == "set_int") { h = ah.addArgument(a.key, DEST_VAR(d.si), "int set"); isInt = true; }
+   else if (a.kind == "list_str") h = ah.addArgument(a.key, DEST_VAR(d.ls), "string list");
+   else return "bad-kind";
+   if (a.hasSep) h->setListSep(a.sep);
+   for (auto const& c : a.checks) h->addCheck(mkCheck(c, isInt));
+   if (a.mand) h->setIsMandatory();
+   if (a.multi) h->setTakesMultiValue();
+   if (a.unique) h->setUniqueData(a.unique == 2);
+   if (a.sort) h->setSortData();
+   if (a.clear) h->setClearBeforeAssign();
+   if (!a.card.empty()) {
+      auto p = splitc(a.card, ':');
+      if (p[0] == "max" && p.size() == 2) h->setCardinality(pa::cardinality_max(std::stoi(p[1])));
+      else if (p[0] == "exact" && p.size() == 2) h->setCardinality(pa::cardinality_exact(std::stoi(p[1])));
+      else if (p[0] == "range" && p.size() == 3) h->setCardinality(pa::cardinality_range(std::stoi(p[1]), std::stoi(p[2])));
+      else return "bad-card";
+   }
+   if (a.fmt == "upper") h->addFormat(pa::uppercase());
+   else if (a.fmt == "lower") h->addFormat(pa::lowercase());
+   else if (!a.fmt.empty()) return "bad-fmt";
+   return "";
+}
+
+/// constraint of one argument on the handler that holds it (all arguments must be defined)
+static std::string addArgConstraint(pa::Handler& ah, const ArgSpec& a) {
+   if (a.constr.empty()) return "";
+   auto p = splitc(a.constr, ':');
+   auto* h = ah.getArgHandler(a.key);
+   if (p.size() == 2 && p[0] == "requires") h->addConstraint(pa::requiresArg(p[1]));
+   else if (p.size() == 2 && p[0] == "excludes") h->addConstraint(pa::excludes(p[1]));
+   else return "bad-constr";
+   return "";
+}
+
+static std::string addHandlerConstraint(pa::Handler& ah, const std::pair<std::string, std::string>& hc) {
+   if (hc.first == "all_of") ah.addConstraint(pa::all_of(hc.second));
+   else if (hc.first == "any_of") ah.addConstraint(pa::any_of(hc.second));
+   else if (hc.first == "one_of") ah.addConstraint(pa::one_of(hc.second));
+   else return "bad-hc";
+   return "";
+}
+
+static std::string destText(const ThreadSpec& ts, const std::vector<Dest>& dests) {
+   std::string res = "ok:";
+   for (size_t k = 0; k < ts.args.size(); ++k) {
+      const ArgSpec& a = ts.args[k];
+      const Dest& d = dests[k];
+      if (k) res += '/';
+      res += a.name + "=";
+      if (a.kind == "int") res += std::to_string(d.i);
+      else if (a.kind == "str") res += d.s.empty() ? "-" : d.s;
+      else if (a.kind == "flag") res += d.b ? "1" : "0";
+      else if (a.kind == "vec_int") res += joinVals(d.vi);
+      else if (a.kind == "vec_str") res += joinVals(d.vs);
+      else if (a.kind == "set_int") res += joinVals(d.si);
+      else if (a.kind == "list_str") res += joinVals(d.ls);
+   }
+   return res;
+}
+
 /// the whole job of one thread: own handler, own destinations, own command line
 static std::string job(const ThreadSpec& ts, bool ownStreams) {
    std::vector<Dest> dests(ts.args.size());
    std::ostringstream out, err;
    int brOpen = 0, brClose = 0;   // live as long as the handler
    std::unique_ptr<pa::Handler> ah;
+   // the call `addBracketHandler` of the thread model (Lemmas/InterleaveApi.lean, `Api`): guarded use of the group
+   // singleton in Handler::addBracketHandler; the handlers capture variables of this thread only
+   const int brAt = ts.bracketAt >= 0 ? std::min<int>(ts.bracketAt, static_cast<int>(ts.args.size()))
+                                      : (ownStreams && !ts.help ? 0 : -1);
    try {
       if (ts.help) ah.reset(new pa::Handler(out, err, pa::Handler::hfHelpShort | pa::Handler::hfUsageCont));
       else if (ownStreams) ah.reset(new pa::Handler(out, err, 0));
       else ah.reset(new pa::Handler(0));
-      // the call `addBracketHandler` of the thread model (Lemmas/InterleaveApi.lean, `Api`): guarded use of the
-      // group singleton in Handler::addBracketHandler; the handlers capture variables of this thread only
-      if (ownStreams && !ts.help) ah->addBracketHandler([&brOpen]() { ++brOpen; }, [&brClose]() { ++brClose; });
-      for (size_t k = 0; k < ts.args.size(); ++k) {
-         const ArgSpec& a = ts.args[k];
-         Dest& d = dests[k];
-         pa::detail::TypedArgBase* h = nullptr;
-         bool isInt = false;
-         if (a.kind == "int") { h = ah->addArgument(a.key, DEST_VAR(d.i), "int value"); isInt = true; }
-         else if (a.kind == "str") h = ah->addArgument(a.key, DEST_VAR(d.s), "string value");
-         else if (a.kind == "flag") h = ah->addArgument(a.key, DEST_VAR(d.b), "flag");
-         else if (a.kind == "vec_int") { h = ah->addArgument(a.key, DEST_VAR(d.vi), "int values"); isInt = true; }
-         else if (a.kind == "vec_str") h = ah->addArgument(a.key, DEST_VAR(d.vs), "string values");
-         else if (a.kind == "set_int") { h = ah->addArgument(a.key, DEST_VAR(d.si), "int set"); isInt = true; }
-         else if (a.kind == "list_str") h = ah->addArgument(a.key, DEST_VAR(d.ls), "string list");
-         else return "bad-kind";
-         if (a.hasSep) h->setListSep(a.sep);
-         for (auto const& c : a.checks) h->addCheck(mkCheck(c, isInt));
-         if (a.mand) h->setIsMandatory();
-         if (a.multi) h->setTakesMultiValue();
-         if (a.unique) h->setUniqueData(a.unique == 2);
-         if (a.sort) h->setSortData();
-         if (a.clear) h->setClearBeforeAssign();
-         if (!a.card.empty()) {
-            auto p = splitc(a.card, ':');
-            if (p[0] == "max" && p.size() == 2) h->setCardinality(pa::cardinality_max(std::stoi(p[1])));
-            else if (p[0] == "exact" && p.size() == 2) h->setCardinality(pa::cardinality_exact(std::stoi(p[1])));
-            else if (p[0] == "range" && p.size() == 3) h->setCardinality(pa::cardinality_range(std::stoi(p[1]), std::stoi(p[2])));
-            else return "bad-card";
-         }
-         if (a.fmt == "upper") h->addFormat(pa::uppercase());
-         else if (a.fmt == "lower") h->addFormat(pa::lowercase());
-         else if (!a.fmt.empty()) return "bad-fmt";
+      for (size_t k = 0; k <= ts.args.size(); ++k) {
+         if (static_cast<int>(k) == brAt) ah->addBracketHandler([&brOpen]() { ++brOpen; }, [&brClose]() { ++brClose; });
+         if (k == ts.args.size()) break;
+         const std::string e = addOneArg(*ah, ts.args[k], dests[k]);
+         if (!e.empty()) return e;
       }
       // constraints between arguments need all arguments to be defined
       for (size_t k = 0; k < ts.args.size(); ++k) {
-         const ArgSpec& a = ts.args[k];
-         if (a.constr.empty()) continue;
-         auto p = splitc(a.constr, ':');
-         auto* h = ah->getArgHandler(a.key);
-         if (p.size() == 2 && p[0] == "requires") h->addConstraint(pa::requiresArg(p[1]));
-         else if (p.size() == 2 && p[0] == "excludes") h->addConstraint(pa::excludes(p[1]));
-         else return "bad-constr";
+         const std::string e = addArgConstraint(*ah, ts.args[k]);
+         if (!e.empty()) return e;
       }
       for (auto const& hc : ts.hcs) {
-         if (hc.first == "all_of") ah->addConstraint(pa::all_of(hc.second));
-         else if (hc.first == "any_of") ah->addConstraint(pa::any_of(hc.second));
-         else if (hc.first == "one_of") ah->addConstraint(pa::one_of(hc.second));
-         else return "bad-hc";
+         const std::string e = addHandlerConstraint(*ah, hc);
+         if (!e.empty()) return e;
       }
    } catch (const std::exception& e) {
       if (std::getenv("HANDLER_MT_DEBUG")) std::fprintf(stderr, "debug: setup %s: %s\n", exName(e).c_str(), e.what());
@@ -261,25 +324,82 @@ static std::string job(const ThreadSpec& ts, bool ownStreams) {
    } catch (...) {
       return "throw:non_std";
    }
-   std::string res = "ok:";
-   for (size_t k = 0; k < ts.args.size(); ++k) {
-      const ArgSpec& a = ts.args[k];
-      const Dest& d = dests[k];
-      if (k) res += '/';
-      res += a.name + "=";
-      if (a.kind == "int") res += std::to_string(d.i);
-      else if (a.kind == "str") res += d.s.empty() ? "-" : d.s;
-      else if (a.kind == "flag") res += d.b ? "1" : "0";
-      else if (a.kind == "vec_int") res += joinVals(d.vi);
-      else if (a.kind == "vec_str") res += joinVals(d.vs);
-      else if (a.kind == "set_int") res += joinVals(d.si);
-      else if (a.kind == "list_str") res += joinVals(d.ls);
-   }
+   std::string res = destText(ts, dests);
+   if (brOpen || brClose) res += "/br=" + std::to_string(brOpen) + ":" + std::to_string(brClose);
    if (ts.help) {
       const std::string u = out.str() + "\x01" + err.str();
       res += "/usage=" + std::to_string(u.size()) + ":" + std::to_string(std::hash<std::string>{}(u) % 1000000007ull);
    } else if (!out.str().empty() || !err.str().empty()) res += "/output=yes";
    return res;
+}
+
+/// the job of the group thread: `gLoops` life cycles of `gHandlers` handlers owned by the process-wide Groups object
+static std::string groupJob(const ThreadSpec& ts, int t) {
+   std::string all;
+   const int m = ts.gHandlers;
+   for (int loop = 0; loop < ts.gLoops; ++loop) {
+      std::vector<Dest> dests(ts.args.size());
+      int brOpen = 0, brClose = 0;
+      std::string res;
+      std::vector<std::string> names;
+      for (int j = 0; j < m; ++j) names.push_back("g" + std::to_string(t) + "_" + std::to_string(j));
+      bool registered = false;
+      try {
+         pa::Groups& g = pa::Groups::instance(*g_groupOut, *g_groupErr, 0);
+         std::vector<pa::Groups::SharedArgHndl> hs;
+         for (int j = 0; j < m; ++j) hs.push_back(g.getArgHandler(names[j], 0));
+         registered = true;
+         for (size_t k = 0; k < ts.args.size() && res.empty(); ++k) res = addOneArg(*hs[k % m], ts.args[k], dests[k]);
+         if (res.empty() && ts.gBrackets >= 0 && ts.gBrackets < m)
+            hs[ts.gBrackets]->addBracketHandler([&brOpen]() { ++brOpen; }, [&brClose]() { ++brClose; });
+         for (size_t k = 0; k < ts.args.size() && res.empty(); ++k) res = addArgConstraint(*hs[k % m], ts.args[k]);
+         for (size_t k = 0; k < ts.hcs.size() && res.empty(); ++k) res = addHandlerConstraint(*hs[0], ts.hcs[k]);
+      } catch (const std::exception& e) {
+         if (std::getenv("HANDLER_MT_DEBUG")) std::fprintf(stderr, "debug: group setup %s: %s\n", exName(e).c_str(), e.what());
+         res = "setup-throw:" + exName(e);
+      } catch (const std::string&) {
+         res = "bad-spec";
+      } catch (...) {
+         res = "setup-throw:non_std";
+      }
+      if (loop == 0 && g_gforce.on.load(std::memory_order_acquire)) {
+         // forced schedule: the handlers are registered and hold their arguments; every stand-alone thread now runs its
+         // whole job; evaluation and removal follow when all of them are done
+         g_gforce.registered.store(1, std::memory_order_release);
+         waitFor([] { return g_gforce.standaloneDone.load() >= g_gforce.nStandalone.load(); }, 5000);
+      }
+      if (res.empty()) {
+         std::vector<std::string> words;
+         words.push_back("prog");
+         for (auto const& w : ts.argv) words.push_back(w);
+         std::vector<char*> av;
+         for (auto& w : words) av.push_back(&w[0]);
+         av.push_back(nullptr);
+         try {
+            pa::Groups::instance().evalArguments(static_cast<int>(words.size()), av.data());
+            res = destText(ts, dests);
+            if (brOpen || brClose) res += "/br=" + std::to_string(brOpen) + ":" + std::to_string(brClose);
+         } catch (const std::exception& e) {
+            if (std::getenv("HANDLER_MT_DEBUG")) std::fprintf(stderr, "debug: group %s: %s\n", exName(e).c_str(), e.what());
+            res = "throw:" + exName(e);
+         } catch (...) {
+            res = "throw:non_std";
+         }
+      }
+      if (registered) {
+         try {
+            if (ts.gRemoveAll) pa::Groups::instance().removeAllArgHandler();
+            else for (auto const& nm : names) pa::Groups::instance().removeArgHandler(nm);
+         } catch (...) {
+            res += "/remove-throw";
+         }
+      }
+      if (!g_groupOut->str().empty() || !g_groupErr->str().empty()) { res += "/output=yes"; g_groupOut->str(""); g_groupErr->str(""); }
+      if (res.compare(0, 4, "bad-") == 0) return res;
+      if (loop == 0) all = res;
+      else if (res != all.substr(0, all.find("//"))) all += "//loop" + std::to_string(loop) + ":" + res;
+   }
+   return all;
 }
 
 // ---- the concurrent run --------------------------------------------------------------------------
@@ -299,24 +419,34 @@ static std::string runAll(int n, int reps, uint64_t seed, bool forced) {
    }
    for (auto const& kv : g_specs) if (kv.first >= n) return "bad-op";
    int nHelp = 0, nAsk = 0;       // usage-capable handlers / command lines that ask for the usage
+   int nGroup = 0;                // group threads (users of the process-wide Groups object)
    for (int t = 0; t < n; ++t) {
+      nGroup += specs[t].group ? 1 : 0;
+      if (specs[t].group && specs[t].help) return "bad-op";
       nHelp += specs[t].help ? 1 : 0;
       for (auto const& w : specs[t].argv) if (specs[t].help && w == "-h") { ++nAsk; break; }
    }
+   if (nGroup > 1) return "bad-op";   // two users of one Groups object are not independent handlers
    installHook(nHelp > 0);      // counts constructions; forces the schedule only while g_force.on
+   const bool usesGroups = nHelp > 0 || nGroup > 0;
+   g_gforce.on.store(false, std::memory_order_release);
    // 1. alone, sequentially
    std::vector<std::string> alone(n);
    for (int t = 0; t < n; ++t) {
-      if (nHelp > 0) pa::Groups::reset();
-      alone[t] = job(specs[t], t % 2 == 1);
+      if (usesGroups) pa::Groups::reset();
+      alone[t] = specs[t].group ? groupJob(specs[t], t) : job(specs[t], t % 2 == 1);
       if (alone[t].compare(0, 4, "bad-") == 0) return "bad-op";
    }
    const unsigned tsanBefore = g_tsan_reports.load();
    // 2. together
    std::string mismatch;
    for (int r = 0; r < reps && mismatch.empty(); ++r) {
+      if (usesGroups) pa::Groups::reset();   // no group singleton yet: the first uses race for its construction
+      if (nGroup > 0) {
+         g_gforce.registered = 0; g_gforce.standaloneDone = 0; g_gforce.nStandalone = n - nGroup;
+         g_gforce.on.store(forced, std::memory_order_release);
+      }
       if (nHelp > 0) {
-         pa::Groups::reset();        // no group singleton yet: the first uses race for its construction
          g_force.expected = nAsk; g_force.atLock = 0; g_force.leftLocked = 0; g_force.constructs = 0; g_force.victims = 0;
          g_force.on.store(forced, std::memory_order_release);
       }
@@ -331,13 +461,18 @@ static std::string runAll(int n, int reps, uint64_t seed, bool forced) {
             while (!go.load(std::memory_order_acquire)) { }
             volatile unsigned sink = 0;
             for (unsigned i = 0; i < spin; ++i) sink = sink + i;
+            if (specs[t].group) { got[t] = groupJob(specs[t], t); return; }
+            const bool held = g_gforce.on.load(std::memory_order_acquire);
+            if (held) waitFor([] { return g_gforce.registered.load(std::memory_order_acquire) != 0; }, 5000);
             got[t] = job(specs[t], t % 2 == 1);
+            if (held) g_gforce.standaloneDone.fetch_add(1);
          });
       }
       while (arrived.load() < n) std::this_thread::yield();
       go.store(true, std::memory_order_release);
       for (auto& x : th) x.join();
       g_force.on.store(false, std::memory_order_release);
+      g_gforce.on.store(false, std::memory_order_release);
       if (nHelp > 0 && g_force.constructs.load() > 1) {
          std::ostringstream os;
          os << "!! interference through Singleton<Groups>: constructed " << g_force.constructs.load()
@@ -375,7 +510,7 @@ int main() {
       if (tk.empty()) return "bad-op";
       if (tk[0] == "case") { g_specs.clear(); return "ok"; }
       try {
-         if (tk[0] == "arg" || tk[0] == "hc" || tk[0] == "argv" || tk[0] == "help") {
+         if (tk[0] == "arg" || tk[0] == "hc" || tk[0] == "argv" || tk[0] == "help" || tk[0] == "bracket" || tk[0] == "group") {
             const std::string ts = vh::kv(tk, "t");
             if (ts.empty()) return "bad-op";
             int t = std::stoi(ts);
@@ -384,6 +519,36 @@ int main() {
             if (tk[0] == "help") {
                if (tk.size() != 2) return "bad-op";
                sp.help = true;
+               return "ok";
+            }
+            if (tk[0] == "bracket") {
+               if (tk.size() != 3) return "bad-op";
+               const std::string at = vh::kv(tk, "at");
+               if (at.empty() || at.size() > 3 || at.find_first_not_of("0123456789") != std::string::npos) return "bad-op";
+               sp.bracketAt = std::stoi(at);
+               return "ok";
+            }
+            if (tk[0] == "group") {
+               // group t=<k> handlers=<1..8> loops=<1..99> [brackets=<0..handlers-1>] [remove=each|all]
+               auto num = [&](const char* key, int lo, int hi, int dflt, bool& ok) {
+                  const std::string v = vh::kv(tk, key);
+                  if (v.empty()) return dflt;
+                  if (v.size() > 2 || v.find_first_not_of("0123456789") != std::string::npos) { ok = false; return dflt; }
+                  const int x = std::stoi(v);
+                  if (x < lo || x > hi) ok = false;
+                  return x;
+               };
+               bool ok = true;
+               for (size_t i = 1; i < tk.size(); ++i) {
+                  const std::string k = tk[i].substr(0, tk[i].find('='));
+                  if (k != "t" && k != "handlers" && k != "loops" && k != "brackets" && k != "remove") ok = false;
+               }
+               const int hn = num("handlers", 1, 8, 0, ok), lp = num("loops", 1, 99, 0, ok);
+               if (!ok || hn == 0 || lp == 0) return "bad-op";
+               const int br = num("brackets", 0, hn - 1, -1, ok);
+               const std::string rm = vh::kv(tk, "remove", "each");
+               if (!ok || (rm != "each" && rm != "all")) return "bad-op";
+               sp.group = true; sp.gHandlers = hn; sp.gLoops = lp; sp.gBrackets = br; sp.gRemoveAll = rm == "all";
                return "ok";
             }
             if (tk[0] == "argv") {
